@@ -29,36 +29,44 @@ def run_check(pid, tier, seed):
     chk = load_check(pid)
     ctx = {"repo": REPO, "seed": seed, "tier": tier}
     t0 = time.time()
-    tasks = chk.build(tier, ctx)
-    order = list(range(len(tasks)))
-    if seed:
-        # VERIF_SEED only rotates the dispatch order (no random choices)
-        k = seed % max(1, len(order))
-        order = order[k:] + order[:k]
-    rtasks = [tasks[i] for i in order]
-
     def progress(done, total):
         print(f"[{pid}] {done}/{total} tasks  {time.time()-t0:.0f}s",
               file=sys.stderr, flush=True)
-    rres = pool.run_tasks(chk.HANDLER, rtasks,
-                          timeout=getattr(chk, "TIMEOUT", 120.0),
-                          seed_of=getattr(chk, "seed_of", None),
-                          progress=progress)
-    results = [None] * len(tasks)
-    for pos, i in enumerate(order):
-        results[i] = rres[pos]
-    # harness errors
-    herr = [(t, r) for t, r in zip(tasks, results)
-            if r is None or (isinstance(r, dict) and r.get("_error")
-                             and not chk_accepts_error(chk, r))]
-    if herr:
-        for t, r in herr[:5]:
-            print(f"HARNESS-ERROR {pid}: {json.dumps(r)[:1500]} task="
-                  f"{json.dumps(t, default=str)[:300]}", file=sys.stderr)
-        print(f"HARNESS-ERROR {pid}: {len(herr)} task(s) failed in the "
-              "harness; no verdict", flush=True)
-        return 2
-    out = chk.collect(tier, tasks, results, ctx)
+    if hasattr(chk, "explore"):
+        # checks with their own search loop (BFS over histories)
+        try:
+            out = chk.explore(tier, ctx, progress)
+        except pool.HarnessError as e:
+            print(f"HARNESS-ERROR {pid}: {e}", flush=True)
+            return 2
+        tasks = out.get("tasks", [])
+    else:
+        tasks = chk.build(tier, ctx)
+        order = list(range(len(tasks)))
+        if seed:
+            # VERIF_SEED only rotates the dispatch order (no random choices)
+            k = seed % max(1, len(order))
+            order = order[k:] + order[:k]
+        rtasks = [tasks[i] for i in order]
+        rres = pool.run_tasks(chk.HANDLER, rtasks,
+                              timeout=getattr(chk, "TIMEOUT", 120.0),
+                              seed_of=getattr(chk, "seed_of", None),
+                              progress=progress)
+        results = [None] * len(tasks)
+        for pos, i in enumerate(order):
+            results[i] = rres[pos]
+        # harness errors
+        herr = [(t, r) for t, r in zip(tasks, results)
+                if r is None or (isinstance(r, dict) and r.get("_error")
+                                 and not chk_accepts_error(chk, r))]
+        if herr:
+            for t, r in herr[:5]:
+                print(f"HARNESS-ERROR {pid}: {json.dumps(r)[:1500]} task="
+                      f"{json.dumps(t, default=str)[:300]}", file=sys.stderr)
+            print(f"HARNESS-ERROR {pid}: {len(herr)} task(s) failed in the "
+                  "harness; no verdict", flush=True)
+            return 2
+        out = chk.collect(tier, tasks, results, ctx)
     if out.get("harness_error"):
         print(f"HARNESS-ERROR {pid}: {out['harness_error']}", flush=True)
         return 2
